@@ -186,7 +186,8 @@ fn run_one(ck: &mut Checker, fam: usize, f: &Family, size: usize) {
 }
 
 pub fn add_families(p: &mut Plan, q: bool) {
-    let sizes: Vec<usize> = if q { vec![4 << 10, 64 << 10] } else { vec![4 << 10, 64 << 10, 1 << 20] };
+    // (256 KiB of 3-byte header lines is 87 k lines: past every 8- and 16-bit counter)
+    let sizes: Vec<usize> = if q { vec![4 << 10, 64 << 10, 256 << 10] } else { vec![4 << 10, 64 << 10, 256 << 10, 1 << 20] };
     let n = families().len();
     let mut tasks: Vec<TaskFn> = Vec::new();
     for &size in &sizes {
